@@ -158,21 +158,38 @@ class FramingModel:
 
     # -- outcome ---------------------------------------------------------------------------------
     def reader_class(self, p, x):
+        """what kind of body reader the term is, judged by the TYPES of the values it is built from (the result types of the calls and
+        aggregates in it), not by the names of the functions that build them"""
         f = self.nr
+        facts = self.facts
         x = absint.deep(p.state, x)
         src = ("init", (self.src,))
-        calls = absint.calls_in(x)
-        names = [c[1] for c in calls]
-        fused = any(re.search(r"FusedReader::<R>::new$|FusedReader::new$", n) for n in names) or any(t and t[0] == "agg" and str(t[1]).endswith("FusedReader") for t in absint.walk_terms(x))
+        tys = []
+        for c in absint.calls_in(x):
+            bb = c[3]
+            if isinstance(bb, int) and 0 <= bb < f.n:
+                t = f.blocks[bb].get("inl_call") or f.blocks[bb]["term"]
+                if t.get("dest"):
+                    tys.append(f.local_ty(t["dest"]["l"]))
+            tys.append(c[1])
+        for t_ in absint.walk_terms(x):
+            if t_ and t_[0] == "agg":
+                tys.append(str(t_[1]))
+        import shared as SH
+        cbr = SH.chunked_reader_adt(facts)
+        def has(rx):
+            return any(re.search(rx, ty) for ty in tys)
+        fused = has(r"\bFusedReader\b")
         if x == src:
             return "raw", fused
-        if any(re.search(r"^std::io::empty$", n) for n in names) and not absint.contains(x, src):
+        holds_src = absint.contains(x, src)
+        if has(r"^std::io::empty$|\bstd::io::Empty\b") and not holds_src:
             return "empty", fused
-        if any(re.search(r"EqualReader::<R>::new$|EqualReader::new$", n) for n in names) and absint.contains(x, src):
-            return "equal", fused
-        if any(re.search(r"chunked_transfer::Decoder::<R>::new$|Decoder::new$", n) for n in names) and absint.contains(x, src):
+        if (has(r"chunked_transfer::(decoder::)?Decoder\b") or (cbr and has(re.escape(cbr) + r"\b"))) and holds_src:
             return "chunked", fused
-        if any(re.search(r"std::io::Cursor::<T>::new$", n) for n in names) and not absint.contains(x, src):
+        if has(r"\bEqualReader\b") and holds_src:
+            return "equal", fused
+        if has(r"std::io::Cursor\b") and not holds_src:
             return "buffer", fused
         return "?" + symex.sym_str(x)[:80], fused
 
